@@ -39,7 +39,11 @@ where
 
   fn actual_subscribe(self, observer: O) -> Self::Unsub {
     let Self { scheduler, dur, delay } = self;
-    scheduler.schedule(RepeatTask::new(dur, interval_task, observer), delay)
+    // `interval_at`: the first tick is due at the given instant, the later
+    // ones every `dur` after it.
+    let first = delay.unwrap_or(dur);
+    let task = RepeatTask::with_first_delay(first, dur, interval_task, observer);
+    scheduler.schedule(task, None)
   }
 }
 
